@@ -10,7 +10,7 @@ use std::collections::HashMap;
 
 pub const KEYS: [&str; 2] = ["a", "b"];
 
-#[derive(Clone, Debug, PartialEq)]
+#[derive(Clone, Debug, PartialEq, serde::Serialize, serde::Deserialize)]
 pub enum VOp {
     /// fetch a handle for key index (with_label_values / get_metric_with) and keep it as the thread's current handle
     Get(usize),
@@ -25,14 +25,14 @@ pub enum VOp {
     HandleUpd(f64),
 }
 
-#[derive(Clone, Copy, Debug, PartialEq, Eq)]
+#[derive(Clone, Copy, Debug, PartialEq, Eq, serde::Serialize, serde::Deserialize)]
 pub enum VFlavour {
     IntCounterList,
     CounterMap,
     HistogramList,
 }
 
-#[derive(Clone, Copy, Debug, PartialEq, Eq)]
+#[derive(Clone, Copy, Debug, PartialEq, Eq, serde::Serialize, serde::Deserialize)]
 pub enum Start {
     Empty,
     /// key "a" exists (child 0, pre-incremented), harness keeps a handle
@@ -154,6 +154,16 @@ pub struct VecDriver {
     pub programs: Vec<Vec<VOp>>,
 }
 
+impl VecDriver {
+    pub fn from_spec(v: &serde_json::Value) -> Option<VecDriver> {
+        Some(VecDriver {
+            flavour: serde_json::from_value(v["flavour"].clone()).ok()?,
+            start: serde_json::from_value(v["start"].clone()).ok()?,
+            programs: serde_json::from_value(v["programs"].clone()).ok()?,
+        })
+    }
+}
+
 /// Expand W into Get + Upd.
 pub fn expand(p: &[VOp]) -> Vec<VOp> {
     let mut out = vec![];
@@ -227,6 +237,10 @@ impl Driver for VecDriver {
                 VOp::W(..) => unreachable!(),
             }
         }
+    }
+
+    fn spec(&self) -> serde_json::Value {
+        serde_json::json!({"kind": "vec", "flavour": self.flavour, "start": self.start, "programs": self.programs})
     }
 
     fn check(&self, sh: &VecShared, x: &Execution) -> Result<String, (String, String)> {
